@@ -32,3 +32,13 @@ json.dump(a,open('known_findings.json','w'),indent=1)
 PY
 rm -f /tmp/kf_ours.json /tmp/kf_theirs.json /tmp/manifest_theirs.py
 /venv/bin/python tools/manifest.py
+# strip inline CHECKS["Cnn"] = dict(...) blocks that git auto-merged into manifest.py (entries live in tools/checks/*.json)
+/venv/bin/python - <<'PY'
+p='tools/manifest.py'
+s=open(p).read()
+if 'CHECKS["' in s:
+    head=s[:s.index('            CHECKS[_f[:-5]] = json.load(_fh)')+len('            CHECKS[_f[:-5]] = json.load(_fh)')]
+    tail=s[s.index('NOT_YET ='):]
+    open(p,'w').write(head+"\n\n"+tail)
+PY
+/venv/bin/python tools/manifest.py
